@@ -253,12 +253,144 @@ fn c04_execute(r: &mut Runner) {
     r.require(acc > 10 && rej > 10, "C04 execute grid must contain accepted and refused stakes");
 }
 
+/// Execute-level lattice: for every (staked, LST) pair of a boundary lattice whose rate lies in the window
+/// [1e-3, 1e3] the admin resumes a fresh contract with those totals; then, for every lattice amount, a user
+/// stakes it, unstakes what was minted, and the batch is submitted. No call may panic (C16); the minted
+/// and set-aside amounts obey the floor formulas and never lower the rate (C04).
+pub fn resume_lattice(r: &mut Runner, prop: &'static str, thorough: bool) {
+    let big = 1_000_000_000_000_000_000_000_000_000u128;
+    let mut vals: Vec<u128> = if thorough {
+        lattice().into_iter().filter(|v| *v >= 1 && *v <= big).collect()
+    } else {
+        let mut v: Vec<u128> = vec![1, 2, 3, 999, 1_000, 1_001, 1_000_000_007];
+        for k in [32u32, 63, 64, 65, 80] {
+            let q = 1u128 << k;
+            v.extend([q - 1, q, q + 1, q + 2]);
+        }
+        for e in [9u32, 18, 19, 20, 24, 27] {
+            let q = 10u128.pow(e);
+            v.extend([q - 1, q]);
+        }
+        v.push(12_345_678_901_234_567_890_123);
+        v.into_iter().filter(|v| *v <= big).collect()
+    };
+    vals.sort();
+    vals.dedup();
+    let k = K::k0();
+    let base = seed_fresh(&k);
+    let pairs: Vec<(u128, u128)> = vals
+        .iter()
+        .flat_map(|n| vals.iter().map(move |l| (*n, *l)))
+        .filter(|(n, l)| *n <= l.saturating_mul(1000) && *l <= n.saturating_mul(1000))
+        .collect();
+    let res: Vec<(u64, u64, Vec<(Violation, Value)>)> = pairs
+        .par_iter()
+        .map(|(n, l)| {
+            let mut cnt = 0u64;
+            let mut okc = 0u64;
+            let mut vs: Vec<(Violation, Value)> = vec![];
+            let mut push = |v: Violation, case: &Value, vs: &mut Vec<(Violation, Value)>| {
+                if !vs.iter().any(|x| x.0.key == v.key) {
+                    vs.push((v, case.clone()));
+                }
+            };
+            let mut s0 = base.clone();
+            let ap = s0.apply(&resume(&adm(), *n, *l, 0));
+            cnt += 1;
+            let case0 = json!({"staked": n.to_string(), "lst": l.to_string()});
+            if let Some(p) = &ap.out.panicked {
+                push(viol(prop, &format!("lattice.panic.{}", crate::scen::panic_site(p)), format!("ResumeContract({n},{l},0) panicked: {p}")), &case0, &mut vs);
+                return (cnt, okc, vs);
+            }
+            if !ap.out.ok {
+                return (cnt, okc, vs);
+            }
+            for x in &vals {
+                if *x < k.min_stake {
+                    continue;
+                }
+                let case = json!({"staked": n.to_string(), "lst": l.to_string(), "amount": x.to_string()});
+                let mut s = s0.clone();
+                s.fund(&u(1), *x);
+                let a = stake(&u(1), *x);
+                let pre = s.clone();
+                let ap = s.apply(&a);
+                cnt += 1;
+                if let Some(p) = &ap.out.panicked {
+                    push(viol(prop, &format!("lattice.panic.{}", crate::scen::panic_site(p)), format!("LiquidStake({x}) at {n}/{l} panicked: {p}")), &case, &mut vs);
+                    continue;
+                }
+                if prop == "C04" {
+                    for v in step_monitors(&["C04"], &pre, &a, &ap, &s) {
+                        push(v, &case, &mut vs);
+                    }
+                }
+                if !ap.out.ok {
+                    continue;
+                }
+                okc += 1;
+                let minted = s.w.bal(&u(1), &s.w.lst_denom());
+                if minted == 0 {
+                    continue;
+                }
+                let a2 = unstake(&s, &u(1), minted);
+                let ap2 = s.apply(&a2);
+                cnt += 1;
+                if let Some(p) = &ap2.out.panicked {
+                    push(viol(prop, &format!("lattice.panic.{}", crate::scen::panic_site(p)), format!("LiquidUnstake({minted}) panicked: {p}")), &case, &mut vs);
+                    continue;
+                }
+                let due = pending_due(&s);
+                s.apply(&advance(due));
+                let a3 = submit(&p20("x"));
+                let pre3 = s.clone();
+                let ap3 = s.apply(&a3);
+                cnt += 1;
+                if let Some(p) = &ap3.out.panicked {
+                    push(viol(prop, &format!("lattice.panic.{}", crate::scen::panic_site(p)), format!("SubmitBatch of {minted} LST at {}/{} panicked: {p}", ap3.pre_state.total_native_token, ap3.pre_state.total_liquid_stake_token)), &case, &mut vs);
+                    continue;
+                }
+                if prop == "C04" {
+                    for v in step_monitors(&["C04"], &pre3, &a3, &ap3, &s) {
+                        push(v, &case, &mut vs);
+                    }
+                }
+                // the State / PendingBatch queries must answer as well
+                for q in [staking::msg::QueryMsg::State {}, staking::msg::QueryMsg::PendingBatch {}] {
+                    if let Err(e) = s.w.query_raw(q) {
+                        if e.starts_with("PANIC") {
+                            push(viol(prop, "lattice.panic.query", format!("query after submit panicked: {e}")), &case, &mut vs);
+                        }
+                    }
+                }
+            }
+            (cnt, okc, vs)
+        })
+        .collect();
+    let mut n = 0;
+    let mut okc = 0;
+    let mut viols = vec![];
+    for (a, b, v) in res {
+        n += a;
+        okc += b;
+        for x in v {
+            if !viols.iter().any(|y: &(Violation, Value)| y.0.key == x.0.key) {
+                viols.push(x);
+            }
+        }
+    }
+    r.grid(&format!("resume-stake-unstake-submit lattice: {} (staked,LST) pairs in the rate window x {} amounts", pairs.len(), vals.len()), n, 3, okc, n - okc, vec![json!({"staked": "18446744073709551615", "lst": "100000000000000000000", "amount": "18446744073709551615"})], viols);
+    r.require(okc > 1000, "the execute-level lattice must contain accepted stakes");
+}
+
 pub fn run_c04(thorough: bool) -> i32 {
     let mut r = Runner::new("C04", if thorough { "thorough" } else { "quick" });
     c04_grids(&mut r, thorough);
     c04_execute(&mut r);
+    resume_lattice(&mut r, "C04", thorough);
     // (c) history monitor on every Stake / Submit transition of the accounting and LST searches
-    for mut p in ledger::plans("C03", thorough).into_iter().chain(ledger::plans("C01", false).into_iter().take(1)) {
+    // (the history monitor rides on the quick-size searches in both tiers; the grids carry the thorough part)
+    for mut p in ledger::plans("C03", false).into_iter().chain(ledger::plans("C01", false).into_iter().take(if thorough { 3 } else { 1 })) {
         p.sc.name = format!("c04-{}", p.sc.name);
         p.sc.props = vec!["C04"];
         let lim = Limits { max_depth: p.depth, max_states: 3_000_000, max_wall_s: if thorough { 1500.0 } else { 120.0 } };
@@ -411,7 +543,12 @@ pub fn run_c09(thorough: bool) -> i32 {
 
 // ============================================================================================ C11
 pub fn run_c11_grid(r: &mut Runner, thorough: bool) {
-    let rewards_menu: Vec<u128> = vec![1, 9, 10, 11, 99, 100, 101, 12_345, 1_000_007, 1_000_000_000_000_000_001, 1_000_000_000_000_000_000_000_000_000];
+    let rewards_menu: Vec<u128> = vec![
+        1, 9, 10, 11, 99, 100, 101, 12_345, 1_000_007, 1_000_000_000_000_000_001,
+        // between 2^64 and 2^96, not multiples of the fee denominator
+        18_446_744_073_709_551_615, 18_446_744_073_709_551_617, 25_000_000_000_000_054_321, (1 << 70) + 7, (1 << 96) - 12_345,
+        999_999_999_999_999_999_999_999_999, 1_000_000_000_000_000_000_000_000_000,
+    ];
     let rates: Vec<u128> = vec![0, 1, 9_999, 10_000, 33_333, 99_999, 100_000, 100_001, 150_000, 1_000_000];
     let k = K::k4();
     let big_seed = |k: &K| -> Sim {
